@@ -83,6 +83,25 @@ func main() {
 				}
 				return true
 			})
+			// 3. storage/badger only: a scheduling point before every statement that starts or commits an engine transaction
+			// (X.Update, X.View, X.Flush, X.Commit), so that an operation made of several transactions can be interleaved
+			// between them. The first transaction after the store wrapper's own point does not yield again (vsync.TxnPoint).
+			if strings.HasSuffix(filepath.ToSlash(dir), "storage/badger") {
+				tp := 0
+				ast.Inspect(file, func(nd ast.Node) bool {
+					switch b := nd.(type) {
+					case *ast.BlockStmt:
+						b.List = addTxnPoints(b.List, &tp)
+					case *ast.CaseClause:
+						b.Body = addTxnPoints(b.Body, &tp)
+					case *ast.CommClause:
+						b.Body = addTxnPoints(b.Body, &tp)
+					}
+					return true
+				})
+				stats["txn-points"] += tp
+				n += tp
+			}
 			// any go statement left (in a position not handled above) is a hard error
 			ast.Inspect(file, func(nd ast.Node) bool {
 				if g, ok := nd.(*ast.GoStmt); ok {
@@ -117,6 +136,46 @@ func main() {
 		}
 	}
 	json.NewEncoder(os.Stdout).Encode(map[string]interface{}{"Replace": overlay, "stats": stats})
+}
+
+// addTxnPoints inserts __vs.TxnPoint() before every statement of the list whose own expressions (not its nested blocks or
+// function literals) call a method named Update, View, Flush or Commit.
+func addTxnPoints(list []ast.Stmt, n *int) []ast.Stmt {
+	var out []ast.Stmt
+	for _, s := range list {
+		if stmtCallsTxn(s) {
+			*n++
+			out = append(out, &ast.ExprStmt{X: &ast.CallExpr{Fun: &ast.SelectorExpr{X: ast.NewIdent("__vs"), Sel: ast.NewIdent("TxnPoint")}}})
+		}
+		out = append(out, s)
+	}
+	return out
+}
+
+func stmtCallsTxn(s ast.Stmt) bool {
+	if _, ok := s.(*ast.BlockStmt); ok {
+		return false
+	}
+	found := false
+	ast.Inspect(s, func(nd ast.Node) bool {
+		if nd == nil || found {
+			return false
+		}
+		switch x := nd.(type) {
+		case *ast.BlockStmt, *ast.FuncLit:
+			return false
+		case *ast.CallExpr:
+			if sel, ok := x.Fun.(*ast.SelectorExpr); ok {
+				switch sel.Sel.Name {
+				case "Update", "View", "Flush", "Commit":
+					found = true
+					return false
+				}
+			}
+		}
+		return true
+	})
+	return found
 }
 
 func fatal(err error) {
